@@ -473,7 +473,7 @@ pub fn case_crash(scratch: &Path, meta: usize, id: &str, seed: u64, len: usize, 
                         for n in 0..*io_calls {
                             write_image(&side.real.dir, &img_vec);
                             side.real.log = None;
-                            let plan = mrecordlog::verif_hooks::FaultPlan { fail_at: n, forever: rng.chance(1, 2), kind: std::io::ErrorKind::Other };
+                            let plan = mrecordlog::verif_hooks::FaultPlan { fail_at: n, forever: rng.chance(1, 2), kind: crate::real::IO_KINDS[(n as usize + k) % crate::real::IO_KINDS.len()].1 };
                             let (foc, fevs) = side.real.open(Pol::AlwaysFlush, Some(plan));
                             let fop = Op::Crash { k, cut, pol: Pol::AlwaysFlush, instant: if class == 3 { Some(instant) } else { None }, drop: pdrop.clone(), zero: pzero.clone(), fail: Some(n) };
                             r.ops.push((false, fop.clone()));
